@@ -84,6 +84,44 @@ def floatOps (op : String) (args : List String) : Option String :=
   | "dodeca_inverse", [x, y, o] => do
       let x ← parseF? x; let y ← parseF? y; let o ← o.toNat?
       pure (showOutcome showFF (dodecaInverse ⟨x, y⟩ o))
+  | "inverse_qt", [x, y, o] => do
+      -- model-only (request generation): the internal parameters of `polyhedralInverse` for a face point - `q` (position of the
+      -- foot point on the far edge) and `t` (fraction of the way from the apex), `-1 -1` when the point snaps to a corner
+      let x ← parseF? x; let y ← parseF? y; let o ← o.toNat?
+      if o ≥ origins.length then none else
+      let f : V2 := ⟨x, y⟩
+      let (rho, gamma) := toPolar f
+      let idx := faceTriangleIndex gamma
+      let reflect := shouldReflect rho gamma
+      let r : Outcome (Float × Float) :=
+        getFaceTriangle idx reflect false >>= fun ft =>
+        computeSphericalTriangle idx o reflect >>= fun st =>
+        let a := st.a; let b := st.b; let c := st.c
+        let (bu, bv, bw) := faceToBarycentric f ft
+        let threshold := 1.0 - fc Gen.POLY_SNAP_EPS
+        if bu > threshold || bv > threshold || bw > threshold then .ok (-1.0, -1.0)
+        else
+          let c1 := v3cross b c
+          let areaABC := sphTriangleArea a b c
+          let h := 1.0 - bu
+          let r := bw / h
+          let alpha := r * areaABC
+          let s := alpha.sin
+          let halfC := (alpha / 2.0).sin
+          let cc := 2.0 * halfC * halfC
+          let c01 := v3dot a b
+          let c12 := v3dot b c
+          let c20 := v3dot c a
+          let s12 := v3length c1
+          let vv := v3dot a c1
+          let ff := s * vv + cc * (c01 * c12 - c20)
+          let g := cc * s12 * (1.0 + c01)
+          let q := (2.0 / c12.acos) * Float.atan2 g ff
+          let p := slerp b c q
+          let k := vectorDifference a p
+          let t := safeAcos (h * k) / safeAcos k
+          .ok (q, t)
+      pure (showOutcome showFF r)
   | "authalic_forward", [p] => do let p ← parseF? p; pure ("ok " ++ showF (authalicForward p))
   | "authalic_inverse", [p] => do let p ← parseF? p; pure ("ok " ++ showF (authalicInverse p))
   | "from_lonlat", [a, b] => do let a ← parseF? a; let b ← parseF? b; pure ("ok " ++ showFF (fromLonLat a b))
